@@ -408,8 +408,27 @@ def main():
     # (--unit runs are development runs of a single unit: they do not rewrite the property's evidence either)
     OUT = VERIF if (on_real_repo and not args.unit) else os.path.join(SCRATCH_ROOT, 'verif-out')
     os.makedirs(os.path.join(OUT, 'replays'), exist_ok=True)
+    printed_kf = set()
     for kf, f in known_hits:
         print('KNOWN-FINDING: property=%s %s (%s)' % (prop, kf.get('what', f['obligation']), f['obligation']))
+        printed_kf.add(kf['obligation'])
+    # open findings that no unit states as an obligation (recorded defects outside what the contracts
+    # can express, DESIGN §8): listed on every run of their property; the recorded input is replayed on
+    # the real code when the replay driver is available, so a finding that disappeared is noticed.
+    for kf in known.get('findings', []):
+        if kf.get('status') == 'open' and kf['property'] == prop and kf['obligation'] not in printed_kf and not args.unit:
+            note = ''
+            try:
+                import cex_search
+                if on_real_repo and kf.get('replay'):
+                    ok, _log = cex_search.build(REPO)
+                    if ok:
+                        drv, mode, rest = kf['replay'].split(' ', 2)
+                        got, _o = cex_search.run_driver(drv, mode, [rest], 120)
+                        note = ' [replayed on the real code: %s]' % ('still fails' if got else 'NO LONGER FAILS - update known_findings.json')
+            except Exception as e:  # noqa
+                note = ' [replay not run: %s]' % e
+            print('KNOWN-FINDING: property=%s %s%s' % (prop, kf.get('what', kf['obligation']), note))
     vio_by_unit = {}
     for r, f in violations:
         vio_by_unit.setdefault(r['unit'], []).append((r, f))
